@@ -119,11 +119,12 @@ CLAIMED["C15"] = {
   "technique": "generated schemas/type graphs through Check/Example/Validate with intrinsic oracle (well-formed + self-accepted + plain-equality); Coq self-validity theorem on the rule-free model (partial)",
 }
 CLAIMED["C16"] = {
-  "text": "PARTIAL (no Coq model of the AST builder; a computed oracle is not a theorem). GetAST is compared with the AST computed from the generator's abstract schema for generated schemas "
+  "text": "Proved on the rule-free fragment (Schema/Ast.v): C16_ast_preorder (one AST node per example value, in source order, with key and token kind), C16_ast_size_is_node_count, C16_ast_root "
+          "(key and rules as written), C16_ast_children_keys (properties in declaration order). PARTIAL for schemas with rules, shortcuts and types: GetAST is compared with the AST computed from the generator's abstract schema for generated schemas "
           "to depth 4 with rules in random written order, literals with trailing zeros, enum lists of mixed kinds, declared and inferred types, formats, notes; fixed cases cover type/or "
           "shortcuts (reference nodes, generated markers), key shortcuts, or rule-sets with nested objects and allOf (inherited properties absent). Any difference is reported with its JSON path.",
   "note": "Trusted: lib/jsight.py expected_ast and the harness' JSON rendering of ASTNode/RuleASTNode. This is differential testing against a specification-derived oracle, labelled partial.",
-  "technique": "differential check of GetAST against an oracle computed from the abstract schema (partial: no theorem)",
+  "technique": "Coq proof that the AST model mirrors the written schema (rule-free fragment) + differential check of GetAST against an oracle computed from the abstract schema",
 }
 CLAIMED["C02"] = {
   "text": "PARTIAL. Proved: the numeric rules are exact on every numeral (C02_min_exact, C02_max_exact, C02_precision_iff re-export the C10 theorems: min/max/exclusive verdicts are "
@@ -138,13 +139,17 @@ CLAIMED["C02"] = {
   "technique": "Coq theorems for numeric rules (exact Q semantics), date and uuid models + boundary-directed differential check of Validate against the statement's rule semantics (partial)",
 }
 CLAIMED["C03"] = {
-  "text": "PARTIAL (no Coq model of the multi-leaf validator yet). Validate is compared with a python transcription of the statement's set semantics - a position naming types accepts the union of "
+  "text": "Proved (Schema/Union.v, any type graph incl. recursive ones, fuelled denotation): C03_accepts_union (a position naming a ++ b accepts the union), C03_accepts_nullable_null, "
+          "C03_accepts_member, C03_accepts_fuel_mono, C03_allOf_flatten (an object with allOf parents accepts exactly what the object with the transitively inherited members written out "
+          "accepts), and the validator's machine for a position naming types - transitive expansion of alias types into leaf validators with the per-position 'each name once' set, the position "
+          "failing only when every leaf fails - is sound and complete for that denotation: C03_validate_refs_sound / C03_validate_refs_complete (no NoDup hypothesis; nullable aliases included). "
+          "PARTIAL: the event-level leaf tree (shared parents, step-back) is not modelled; against the real code Validate is compared with a python transcription of the statement's set semantics - a position naming types accepts the union of "
           "the named types (+ null when nullable), allOf = own plus transitively inherited property requirements, additionalProperties decides every unnamed key (absent/false: forbidden; true; a "
           "JSON kind; a user type) - on generated type graphs of up to 6 types (overlapping integer ranges, objects with required/optional references, unions, nullable aliases, arrays of unions "
           "with positional examples after them, optional self-recursion, allOf chains with 1-2 parents also used directly) and documents obtained from derived inhabitants by typed mutations, plus "
           "dedicated families for overlapping alternatives inside arrays and allOf children without own required keys. Key shortcuts (@K: v) are not generated yet.",
   "note": "Trusted: the python semantics in lib/check_c03.py. Differential testing, not proof. It found the shared-parent defect ([@A | @B, \"s\", 3] accepted [1,3]), fixed in e76ac42.",
-  "technique": "differential check of Validate against a denotational (set) semantics of type references/or/allOf/additionalProperties on generated type graphs (partial: no theorem)",
+  "technique": "Coq proofs of the set laws of the denotation and of soundness/completeness of the validator's type-expansion machine + differential check of Validate against the same semantics on generated type graphs",
 }
 CLAIMED["C06"] = {
   "text": "Proved on the JSON scanner model, for every byte string: C06_spans_inside (every delivered event has begin <= end < length of the input), C06_events_nested (replaying the stream on a stack "
@@ -166,6 +171,15 @@ CLAIMED["C14"] = {
   "note": "Trusted: Coq kernel; extraction; the generator. Two defects were found and fixed: Len one byte short before a directly following foreign byte (1915ee1) and Len of an empty document returning "
           "0 without error (8a6afee).",
   "technique": "Coq proof of Len = document length on the JSON scanner model (event spans + end-of-input rule) + generated S x separator x trailing-text correspondence (JSON half; schema/enum halves not covered)",
+}
+CLAIMED["C18"] = {
+  "text": "Regex half - proved on the model of regex.go's token extraction: C18_extract_sound / C18_extract_complete (the pattern of /P/ is exactly the text up to the first '/' not escaped by an "
+          "unpaired backslash, non-empty), C18_regex_len_is_token_length (Len = |/P/|), C18_extract_deterministic_prefix (what follows the token is irrelevant). PARTIAL for the rest: through "
+          "the API, enum rules (all scalar kinds incl. look-alikes, one-line/multi-line layouts, inline and multi-line comments, LF/CRLF): Check, Len, Values and GetAST in source order with "
+          "kinds and comments, duplicates rejected, and {enum: @E} vs the inline list give identical verdicts equal to type-sensitive membership; regex types from a printable-ASCII grammar: "
+          "Len, Pattern, Example matches P (Go regexp), and @T = /P/ vs inline {regex: P} give identical verdicts equal to a python search; the Coq token model is run on the same texts.",
+  "note": "Trusted: Coq kernel; extraction; python re as oracle on a common regex subset; Go regexp for 'Example matches P'. No Coq model of the enum scanner: the enum half is differential.",
+  "technique": "Coq proof of the /P/ token extraction + differential checks named-vs-inline for enum rules and regex types (partial)",
 }
 NOT_APPLICABLE = {
  "C13": "checked (bin/check C13: equality of Check verdict, AST and validation verdicts across random compositions of the listed schema/document rewrites) but not yet claimed: no theorem about the "
